@@ -94,7 +94,10 @@ def register_constructor(class_name, init_qualname, rec_name):
     from .. import prims
 
     def h(ev, state, node):
-        c = ev.ctx.registry.get(init_qualname)
+        # a caller may ask for a view of the constructor contract (ghost=dict(ctor_view='wf')):
+        # e.g. "data well formed => no exception" instead of "exception only if malformed"
+        view = (ev.ctx.contract.ghost or {}).get('ctor_view') if ev.ctx.contract is not None else None
+        c = ev.ctx.registry.get(init_qualname + ('#' + view if view else ''))
         if c is None:
             raise Unsupported(f"constructor {class_name} without __init__ contract")
         obj = fresh(T.TRec(rec_name), 'new_' + class_name)
@@ -129,3 +132,106 @@ def rec_pop(ev, state, node, recv, ref):
 
 def register_rec_pop(record_name):
     ghost.METHODS[(record_name, 'pop')] = rec_pop
+
+
+# ---------------------------------------------------------------------------------------------
+# s.startswith(<literal>): an uninterpreted predicate of (string, prefix) (A-STR), exact for
+# string literals - in particular for the fixed field names of the declared records
+# ---------------------------------------------------------------------------------------------
+_SW = z3.Function('str_startswith', z3.IntSort(), z3.IntSort(), z3.BoolSort())
+
+
+def _name_startswith(ev, state, node, recv):
+    from .. import prims
+    from .. import values as V
+    if len(node.args) != 1 or node.keywords:
+        raise Unsupported("startswith form")
+    p = ev.eval(state, node.args[0])
+    if not (p.meta and p.meta[0] == 'const' and isinstance(p.meta[1], str)):
+        raise Unsupported("startswith with a non-literal prefix")
+    prefix = p.meta[1]
+    if recv.meta and recv.meta[0] == 'const' and isinstance(recv.meta[1], str):
+        return SymVal(T.BOOL, z3.BoolVal(recv.meta[1].startswith(prefix)), ('const', recv.meta[1].startswith(prefix)))
+    for flds in T.RECORDS.values():
+        for f in flds:
+            if f != '__rest__':
+                literal(f)
+    done = getattr(ev.ctx, '_sw_facts', None)
+    if done is None:
+        done = ev.ctx._sw_facts = set()
+    for s, t in list(V._LITERALS.items()):
+        if (s, prefix) not in done:
+            done.add((s, prefix))
+            ev.ctx.axioms.append(_SW(t, p.term) == z3.BoolVal(s.startswith(prefix)))
+    return SymVal(T.BOOL, _SW(recv.term, p.term))
+
+
+def _register_name_methods():
+    from .. import prims
+    prims.NAME_METHODS.setdefault('startswith', _name_startswith)
+
+
+_register_name_methods()
+
+
+# ---------------------------------------------------------------------------------------------
+# owner_index(d, ks, x): first position i of the key list ks such that x occurs in the list
+# d[ks[i]]; >= len(ks) when there is none.  "x is listed under one of the keys ks" without an
+# existential quantifier.  Definitional axioms (min index satisfying a predicate, else max(len, 0)):
+#   0 <= oi;   oi < len(ks) -> first_index(d[ks[oi]], x) < len(d[ks[oi]]);
+#   0 <= i < len(ks) and first_index(d[ks[i]], x) < len(d[ks[i]]) -> oi <= i
+#   0 <= i < len(ks) and 0 <= j < len(d[ks[i]]) and d[ks[i]][j] == x -> oi <= i   (same fact, other trigger)
+# ---------------------------------------------------------------------------------------------
+_OI = {}
+
+
+def _owner_index_native(d, ks, x):
+    for i, k in enumerate(ks):
+        if x in list(d[k]):
+            return i
+    return len(ks)
+
+
+@spec_function('owner_index', native=_owner_index_native)
+def s_owner_index(ev, state, node):
+    from ..values import dict_val
+    d = ev.eval(state, node.args[0])
+    ks = ev.eval(state, node.args[1])
+    if d.ty[0] != 'dict' or d.ty[2][0] not in ('list', 'arr') or ks.ty[0] not in ('list', 'arr'):
+        raise Unsupported("owner_index(dict of lists, key list, x)")
+    ks = coerce(ks, T.TList(d.ty[1])) if T.sort_of(ks.ty) == T.sort_of(T.TList(d.ty[1])) else ks
+    x = coerce(ev.eval(state, node.args[2]), d.ty[2][1])
+    ctx = ev.ctx
+    key = (str(T.sort_of(d.ty)), str(T.sort_of(ks.ty)))
+    if key not in _OI:
+        _OI[key] = z3.Function('owner_index_' + T.mangle(d.ty), T.sort_of(d.ty), T.sort_of(ks.ty),
+                               T.sort_of(d.ty[2][1]), z3.IntSort())
+    f = _OI[key]
+    done = getattr(ctx, '_owner_index_axioms', None)
+    if done is None:
+        done = ctx._owner_index_axioms = set()
+    if key not in done:
+        done.add(key)
+        fi = first_index_fn(ctx, d.ty[2])
+        dd = z3.Const('oi_d_' + T.mangle(d.ty), T.sort_of(d.ty))
+        kk = z3.Const('oi_ks_' + T.mangle(d.ty), T.sort_of(ks.ty))
+        xx = z3.Const('oi_x_' + T.mangle(d.ty), T.sort_of(d.ty[2][1]))
+        ii = z3.Int('oi_i_' + T.mangle(d.ty))
+        klen = T.acc(ks.ty, 'len')(kk)
+        kat = T.acc(ks.ty, 'at')(kk)
+        val = T.acc(d.ty, 'val')(dd)
+        llen = T.acc(d.ty[2], 'len')
+        o = f(dd, kk, xx)
+        ctx.axioms.append(z3.ForAll([dd, kk, xx], z3.And(
+            o >= 0, z3.Implies(o < klen, fi(val[kat[o]], xx) < llen(val[kat[o]]))), patterns=[o]))
+        ctx.axioms.append(z3.ForAll([dd, kk, xx, ii], z3.Implies(
+            z3.And(0 <= ii, ii < klen, fi(val[kat[ii]], xx) < llen(val[kat[ii]])), o <= ii),
+            patterns=[z3.MultiPattern(o, fi(val[kat[ii]], xx))]))
+        # the same fact stated from an occurrence d[ks[i]][j] == x (no first_index term needed
+        # as a trigger)
+        jj = z3.Int('oi_j_' + T.mangle(d.ty))
+        lat = T.acc(d.ty[2], 'at')
+        ctx.axioms.append(z3.ForAll([dd, kk, xx, ii, jj], z3.Implies(
+            z3.And(0 <= ii, ii < klen, 0 <= jj, jj < llen(val[kat[ii]]), lat(val[kat[ii]])[jj] == xx),
+            o <= ii), patterns=[z3.MultiPattern(o, lat(val[kat[ii]])[jj])]))
+    return SymVal(T.INT, f(d.term, ks.term, x.term))
